@@ -9,6 +9,7 @@ length, value, register position, width and build profile — nothing is bounded
 import CamVerif.Proofs.C20Raw
 import CamVerif.Proofs.C20Typed
 import CamVerif.Proofs.C20BitField
+import CamVerif.Proofs.C20Post
 import CamVerif.Proofs.C20GenTie
 namespace CamVerif.C20
 open CamVerif CamVerif.Memory CamVerif.Memory.AccessRight CamVerif.Memory.MemoryProtection
@@ -520,6 +521,258 @@ example : specRight [⟨0, 4, .RW, none⟩, ⟨2, 2, .RO, none⟩, ⟨8, 0, .WO,
 example : ∃ m, Mem.new [⟨0, 4, [⟨0, 2, .RO, some ((scalarReg .LE 2 0 2 .RO).write 321#16)⟩, ⟨2, 2, .RW, none⟩]⟩] = .ok m ∧
     m.read (scalarReg .LE 2 0 2 .RO) = .ok 321#16 ∧ m.protection.cell 1 = .RO ∧ m.protection.cell 2 = .RW :=
   ⟨_, rfl, by decide, by decide, by decide⟩
+
+/-! ## `&mut self` calls as total state transitions: a failing call changes nothing
+
+`Mem.writeRawPost`, `Mem.writePost`, `Mem.setAccessRightPost` (what the driver runs) return the
+memory AFTER the call in every outcome, the observers notified during the call and the outcome. -/
+
+/-- **post_refines**: the total transitions agree with the result-only functions all theorems
+above are about — same outcome, and on `Ok` the same new memory and fired observers — for raw
+writes and for typed writes of every template instance (scalar, string, bytes, bit field; any
+parameters, well-formed or not) and of every register whose statement-level `write` is coherent
+with its result-only `write`. -/
+theorem post_refines :
+    (∀ (p : Profile) (m : Mem) (addr : Nat) (buf : Bytes),
+      (m.writeRawPost p addr buf).toRes = m.writeRaw p addr buf) ∧
+    (∀ {α} (m : Mem) (r : Register α) (v : α), r.Coherent → (m.writePost r v).toRes = m.write r v) ∧
+    (∀ e size address len ar, (scalarReg e size address len ar).Coherent) ∧
+    (∀ address len ar, (strReg address len ar).Coherent) ∧
+    (∀ address len ar, (bytesReg address len ar).Coherent) ∧
+    (∀ {w} e sg lsb msb mn mx address len ar, (bfReg (w := w) e sg lsb msb mn mx address len ar).Coherent) :=
+  ⟨writeRawPost_toRes, fun m r v hc => writePost_toRes m r hc v, scalarReg_coherent, strReg_coherent,
+    bytesReg_coherent, fun e sg lsb msb mn mx address len ar => bfReg_coherent e sg lsb msb mn mx address len ar⟩
+
+/-- **err_leaves_state_unchanged (raw)**: for every memory state, address and buffer, a
+`write_raw` that does not return `Ok` (any `Err`; the model also shows it cannot panic on a
+well-formed memory) leaves the whole memory — raw bytes, every protection cell, the registered
+observers — exactly as it was and notifies no observer. -/
+theorem err_leaves_state_unchanged_raw (p : Profile) (m : Mem) (addr : Nat) (buf : Bytes)
+    (h : ∀ u, (m.writeRawPost p addr buf).res ≠ .ok u) :
+    let post := m.writeRawPost p addr buf
+    post.mem = m ∧ post.fired = [] ∧ post.mem.raw = m.raw ∧
+    (∀ i, post.mem.protection.cell i = m.protection.cell i) ∧ post.mem.observers = m.observers := by
+  intro post
+  obtain ⟨h1, h2⟩ := writeRawPost_fail p m addr buf h
+  exact ⟨h1, h2, by rw [h1], fun i => by rw [h1], by rw [h1]⟩
+
+/-- **err_leaves_state_unchanged (typed)**: for every memory state, every template instance —
+numeric register of any size/byte order, `String`, `Bytes`, bit field of any width, sign,
+position, min/max, at any address and with any `len` (mis-sized and out-of-memory declarations
+included) — and every value: a typed `write::<T>` that does not return `Ok` (refused value, short
+register, or a panic of the slice index / length assertion) leaves raw bytes, protection cells
+and observers exactly as they were and notifies no observer.  The same for any register whose
+statement-level `write` is coherent. -/
+theorem err_leaves_state_unchanged_typed :
+    (∀ {α} (m : Mem) (r : Register α) (v : α), r.Coherent → (∀ u, (m.writePost r v).res ≠ .ok u) →
+      (m.writePost r v).mem = m ∧ (m.writePost r v).fired = []) ∧
+    (∀ (m : Mem) e size address len ar (v : BitVec (8 * size)),
+      (∀ u, (m.writePost (scalarReg e size address len ar) v).res ≠ .ok u) →
+      (m.writePost (scalarReg e size address len ar) v).mem = m ∧
+      (m.writePost (scalarReg e size address len ar) v).fired = []) ∧
+    (∀ (m : Mem) address len ar (v : Bytes),
+      (∀ u, (m.writePost (strReg address len ar) v).res ≠ .ok u) →
+      (m.writePost (strReg address len ar) v).mem = m ∧ (m.writePost (strReg address len ar) v).fired = []) ∧
+    (∀ (m : Mem) address len ar (v : Bytes),
+      (∀ u, (m.writePost (bytesReg address len ar) v).res ≠ .ok u) →
+      (m.writePost (bytesReg address len ar) v).mem = m ∧ (m.writePost (bytesReg address len ar) v).fired = []) ∧
+    (∀ {w} (m : Mem) e sg lsb msb mn mx address len ar (v : BitVec w),
+      (∀ u, (m.writePost (bfReg e sg w lsb msb mn mx address len ar) v).res ≠ .ok u) →
+      (m.writePost (bfReg e sg w lsb msb mn mx address len ar) v).mem = m ∧
+      (m.writePost (bfReg e sg w lsb msb mn mx address len ar) v).fired = []) :=
+  ⟨fun m r v hc h => writePost_fail m r hc v h,
+   fun m e size address len ar v h => writePost_fail m _ (scalarReg_coherent e size address len ar) v h,
+   fun m address len ar v h => writePost_fail m _ (strReg_coherent address len ar) v h,
+   fun m address len ar v h => writePost_fail m _ (bytesReg_coherent address len ar) v h,
+   fun m e sg lsb msb mn mx address len ar v h =>
+     writePost_fail m _ (bfReg_coherent e sg lsb msb mn mx address len ar) v h⟩
+
+/-- **ok_notifies_exactly_overlapping**: a raw or typed write that returns `Ok` leaves protection
+and registered observers untouched and notifies EXACTLY the observers whose register shares at
+least one byte with the written range (`addr..addr+len` resp. `T::range()`), each once, in
+registration order. -/
+theorem ok_notifies_exactly_overlapping :
+    (∀ (p : Profile) (m : Mem) (addr : Nat) (buf : Bytes), (m.writeRawPost p addr buf).res = .ok () →
+      let post := m.writeRawPost p addr buf
+      post.mem.protection = m.protection ∧ post.mem.observers = m.observers ∧
+      post.fired.Pairwise (· < ·) ∧
+      ∀ i, i ∈ post.fired ↔ ∃ h : i < m.observers.length,
+        overlaps addr (addr + buf.length) (m.observers[i]).1 (m.observers[i]).2) ∧
+    (∀ {α} (m : Mem) (r : Register α) (v : α), (m.writePost r v).res = .ok () →
+      let post := m.writePost r v
+      post.mem.protection = m.protection ∧ post.mem.observers = m.observers ∧
+      post.mem.raw = (r.writeSt v m.raw).1 ∧ post.fired.Pairwise (· < ·) ∧
+      ∀ i, i ∈ post.fired ↔ ∃ h : i < m.observers.length,
+        overlaps r.address (r.address + r.length) (m.observers[i]).1 (m.observers[i]).2) := by
+  refine ⟨fun p m addr buf h => ?_, fun m r v h => ?_⟩
+  · obtain ⟨h1, h2, h3⟩ := writeRawPost_ok p m addr buf h
+    have ho := observers_fire_iff_overlap m addr (addr + buf.length)
+    exact ⟨h1, h2, by rw [h3]; exact (ho 0).2, fun i => by rw [h3]; exact (ho i).1⟩
+  · obtain ⟨h1, h2, h3, h4⟩ := writePost_ok m r v h
+    have ho := observers_fire_iff_overlap m r.address (r.address + r.length)
+    exact ⟨h1, h2, h3, by rw [h4]; exact (ho 0).2, fun i => by rw [h4]; exact (ho i).1⟩
+
+/-- **set_access_right as a total transition**: it never returns `Err`, never touches the raw
+image or the observers and notifies nobody, in every outcome (also when the `for_each` panics on a
+cell outside the packed vector: cells already written then stay written, sizes are kept); when the
+register lies inside the protection vector it returns normally and changes exactly the cells of
+the register's range. -/
+theorem set_access_right_post {α} (m : Mem) (r : Register α) (ar : AccessRight) :
+    let post := m.setAccessRightPost r ar
+    post.mem.raw = m.raw ∧ post.mem.observers = m.observers ∧ post.fired = [] ∧
+    (∀ e, post.res ≠ .err e) ∧
+    post.mem.protection.memorySize = m.protection.memorySize ∧
+    post.mem.protection.capacity = m.protection.capacity ∧
+    (r.address + r.length ≤ m.protection.capacity →
+      post.res = .ok () ∧ m.setAccessRight r ar = .ok post.mem ∧
+      ∀ j, post.mem.protection.cell j =
+        if r.address ≤ j ∧ j < r.address + r.length then ar else m.protection.cell j) := by
+  intro post
+  have hs := setRangeKeep_sizes ar m.protection r.address (rangeCount r.address r.rangeEnd)
+  refine ⟨rfl, rfl, rfl, ?_, hs.1, congrArg (4 * ·) hs.2, fun hin => ?_⟩
+  · intro e
+    show (if _ then _ else _) ≠ _
+    split <;> simp
+  · obtain ⟨mp', h1, _, _, h4⟩ := range_set_frame m.protection r.address (r.address + r.length) ar
+      (Nat.le_add_right _ _) hin
+    have h1' : setAccessRightFrom ar m.protection r.address (rangeCount r.address r.rangeEnd) = .ok mp' := h1
+    have hk := setRangeKeep_of_ok ar m.protection mp' r.address _ h1'
+    have hpost : post = ⟨{ m with protection := mp' }, [], .ok ()⟩ := by
+      show Mem.setAccessRightPost m r ar = _
+      simp only [Mem.setAccessRightPost, hk, if_true]
+    rw [hpost]
+    refine ⟨rfl, ?_, h4⟩
+    simp only [Mem.setAccessRight, Register.rangeEnd, h1]
+
+-- a refused bit-field value / an unwritable byte, with an observer on the register: nothing changes
+example :
+    let m : Mem := ⟨[0xff, 0x07, 0xAA], ⟨[0x3F#8], 3⟩, [(0, 2)]⟩
+    (m.writePost (bfReg .LE true 16 11 15 (-16) 15 0 2 .RW) 16#16).res = .err .invalidRegisterData ∧
+    (m.writePost (bfReg .LE true 16 11 15 (-16) 15 0 2 .RW) 16#16).mem = m ∧
+    (m.writePost (bfReg .LE true 16 11 15 (-16) 15 0 2 .RW) 16#16).fired = [] ∧
+    (m.writePost (bfReg .LE true 16 11 15 (-16) 15 0 2 .RW) 0xFFFF#16).res = .ok () ∧
+    (m.writePost (bfReg .LE true 16 11 15 (-16) 15 0 2 .RW) 0xFFFF#16).fired = [0] ∧
+    (m.writeRawPost .dev 1 [9, 9]).res = .ok () ∧ (m.writeRawPost .dev 1 [9, 9]).fired = [0] ∧
+    (m.writeRawPost .dev 2 [9, 9]).res = .err .invalidAddress ∧ (m.writeRawPost .dev 2 [9, 9]).mem = m ∧
+    (m.setAccessRightPost (strReg 1 2 .RW) .RO).res = .ok () ∧
+    (m.setAccessRightPost (strReg 1 2 .RW) .RO).mem.protection.cell 2 = .RO := by decide
+
+/-- **later initialiser wins** (`new_rights_and_inits` without the `KeepRange` hypothesis, for
+fixed-data initialisers): when every declared init value is stored by a fixed-data write over
+its register (numeric, `String` and `Bytes` registers: `default_splices`; bit-field initialisers
+are read-modify-write and not covered), registers may overlap arbitrarily and after `new()` every
+byte holds the data byte of the LAST initialiser (fragment order, then declaration order) whose
+register covers it, and 0 where none does. -/
+theorem new_bytes_later_initialiser_wins (frags : List Fragment) (m : Mem) (h : Mem.new frags = .ok m)
+    (rs : List (RegInit × Option Bytes)) (hrs : frags.flatMap (·.regs) = rs.map (·.1))
+    (n : Nat) (hn : memorySize frags = some n)
+    (hall : ∀ x ∈ rs, x.1.address + x.1.length ≤ n ∧
+      (match x.2 with | none => x.1.init = none | some d => x.1.Splices d)) :
+    m.raw.length = n ∧ (∀ i, i < n → m.raw[i]? = some (specByte rs i 0)) ∧
+    (∀ {α} (address len : Nat) (acc : AccessRight) (ser : α → R Bytes) (v : α) (d : Bytes),
+      ser v = .ok d → d.length = len →
+      (⟨address, len, acc, some (defaultWrite address len ser v)⟩ : RegInit).Splices d) :=
+  ⟨(new_bytes frags m h rs hrs n hn hall).1, (new_bytes frags m h rs hrs n hn hall).2,
+    fun address len acc ser v d hs hd => default_splices address len acc ser v d hs hd⟩
+
+-- u32 0xdeadbeef at 0, then bytes [1,2] over its middle: the later initialiser wins on bytes 1..3
+example : specByte [(⟨0, 4, .RW, none⟩, some [0xef, 0xbe, 0xad, 0xde]), (⟨1, 2, .RO, none⟩, some [1, 2]),
+      (⟨3, 0, .RW, none⟩, none)] 1 0 = 1 ∧
+    specByte [(⟨0, 4, .RW, none⟩, some [0xef, 0xbe, 0xad, 0xde]), (⟨1, 2, .RO, none⟩, some [1, 2])] 3 0 = 0xde ∧
+    (∃ m, Mem.new [⟨0, 4, [⟨0, 4, .RW, some ((scalarReg .LE 4 0 4 .RW).write 0xdeadbeef#32)⟩,
+        ⟨1, 2, .RO, some ((bytesReg 1 2 .RO).write [1, 2])⟩]⟩] = .ok m ∧ m.raw = [0xef, 1, 2, 0xde]) :=
+  ⟨by decide, by decide, _, rfl, by decide⟩
+
+/-! ## Histories -/
+
+private theorem step_invariants (p : Profile) (m : Mem) (hwf : m.WF) (c : Call) (hc : c.Fits m) :
+    (m.step p c).1.WF ∧ (m.step p c).1.raw.length = m.raw.length ∧
+    (m.step p c).1.protection.capacity = m.protection.capacity ∧
+    (∀ j, (m.step p c).1.protection.cell j = histRight [c] j (m.protection.cell j)) ∧
+    (m.step p c).1.observers = m.observers ++ histObservers [c] := by
+  cases c with
+  | writeRaw addr buf =>
+    simp only [Mem.step, histRight, histObservers, List.foldl_cons, List.foldl_nil, List.filterMap_cons,
+      List.filterMap_nil, List.append_nil]
+    by_cases hok : (m.writeRawPost p addr buf).res = .ok ()
+    · have h2 := writeRawPost_toRes p m addr buf
+      simp only [Post.toRes, hok] at h2
+      obtain ⟨h3, h4, h5, h6, _⟩ := raw_write_frame p m _ hwf addr buf _ h2.symm
+      exact ⟨h3, h4, by rw [h5], fun j => by rw [h5], h6⟩
+    · have hf := writeRawPost_fail p m addr buf (fun u => by cases u; exact hok)
+      rw [hf.1]
+      exact ⟨hwf, rfl, rfl, fun j => rfl, rfl⟩
+  | write a l st =>
+    simp only [Mem.step, histRight, histObservers, List.foldl_cons, List.foldl_nil, List.filterMap_cons,
+      List.filterMap_nil, List.append_nil]
+    obtain ⟨c1, c2, c3⟩ := writePost_cases m { rangeReg a l with writeSt := fun _ => st } ()
+    have hl : (st m.raw).1.length = m.raw.length := hc m.raw
+    have key : (m.writeCore a l st).mem = { m with raw := (st m.raw).1 } := by
+      unfold Mem.writeCore
+      cases hr : (st m.raw).2 with
+      | ok u => cases u; rw [c1 hr]
+      | err e => rw [c2 e hr]
+      | panic => rw [c3 hr]
+    rw [key]
+    exact ⟨⟨by simp only [hl]; exact hwf.size, by simp only [hl]; exact hwf.cap⟩, hl, rfl, fun j => rfl, rfl⟩
+  | setAccessRight a l ar =>
+    simp only [Mem.step, histRight, histObservers, List.foldl_cons, List.foldl_nil, List.filterMap_cons,
+      List.filterMap_nil, List.append_nil]
+    obtain ⟨h1, h2, _, _, h5, h6, h7⟩ := set_access_right_post m (rangeReg a l) ar
+    obtain ⟨_, _, h8⟩ := h7 hc
+    refine ⟨⟨by rw [h5, h1]; exact hwf.size, by rw [h6, h1]; exact hwf.cap⟩, by rw [h1], h6, h8, h2⟩
+  | registerObserver a l =>
+    simp only [Mem.step, histRight, histObservers, List.foldl_cons, List.foldl_nil, List.filterMap_cons,
+      List.filterMap_nil]
+    exact ⟨⟨hwf.size, hwf.cap⟩, rfl, rfl, fun j => rfl, rfl⟩
+
+private theorem fits_transfer (m m' : Mem) (h : m'.protection.capacity = m.protection.capacity) (c : Call)
+    (hc : c.Fits m) : c.Fits m' := by
+  cases c <;> simp only [Call.Fits] at hc ⊢
+  · exact hc
+  · rw [h]; exact hc
+
+/-- **history_invariants** (all set_access_right / write / register_observer histories): for every
+well-formed memory and every history of `&mut self` calls — raw writes with any arguments, typed
+writes of registers whose `write` keeps the image length (every template does:
+`wf_established_and_preserved`), `set_access_right` of registers inside the protection vector,
+`register_observer` — in any order and with any outcomes (failing calls included): the invariant
+`WF`, the image length and the protection capacity are kept; the right of every cell `j` at the
+end is the right of the LAST `set_access_right` whose register covers `j` and the initial right
+otherwise (independent cells along histories — writes never change rights); the observers are
+the initial ones followed by the registered ones in order. -/
+theorem history_invariants (p : Profile) (m : Mem) (hwf : m.WF) (cs : List Call) (hc : Fits m cs) :
+    (Mem.run p m cs).1.WF ∧ (Mem.run p m cs).1.raw.length = m.raw.length ∧
+    (Mem.run p m cs).1.protection.capacity = m.protection.capacity ∧
+    (∀ j, (Mem.run p m cs).1.protection.cell j = histRight cs j (m.protection.cell j)) ∧
+    (Mem.run p m cs).1.observers = m.observers ++ histObservers cs := by
+  induction cs generalizing m with
+  | nil => exact ⟨hwf, rfl, rfl, fun j => rfl, by simp [histObservers, Mem.run]⟩
+  | cons c cs ih =>
+    obtain ⟨s1, s2, s3, s4, s5⟩ := step_invariants p m hwf c (hc c (by simp))
+    obtain ⟨r1, r2, r3, r4, r5⟩ := ih (m.step p c).1 s1
+      (fun d hd => fits_transfer m _ s3 d (hc d (by simp [hd])))
+    simp only [Mem.run]
+    refine ⟨r1, by omega, by omega, fun j => ?_, ?_⟩
+    · rw [r4, s4]; simp only [histRight, List.foldl_cons, List.foldl_nil]
+    · rw [r5, s5]; simp only [histObservers, List.filterMap_cons, List.append_assoc]
+      cases c <;> simp
+
+example :
+    let m : Mem := ⟨[1, 2, 3, 4], ⟨[0xFF#8], 4⟩, []⟩
+    let cs : List Call := [.registerObserver 1 2, .setAccessRight 0 2 .RO, .writeRaw 0 [9], .writeRaw 2 [7, 8],
+      .write 0 4 ((bytesReg 0 4 .RW).writeSt [5, 5]), .setAccessRight 1 2 .NA]
+    Fits m cs ∧ (Mem.run .dev m cs).1.raw = [1, 2, 7, 8] ∧ (Mem.run .dev m cs).2 = [0] ∧
+    (Mem.run .dev m cs).1.observers = [(1, 3)] ∧ (Mem.run .dev m cs).1.protection.cell 0 = .RO ∧
+    (Mem.run .dev m cs).1.protection.cell 1 = .NA ∧ (Mem.run .dev m cs).1.protection.cell 3 = .RW ∧
+    histRight cs 1 .RW = .NA := by
+  refine ⟨?_, by decide, by decide, by decide, by decide, by decide, by decide, by decide⟩
+  intro c hc
+  simp only [List.mem_cons, List.not_mem_nil, or_false] at hc
+  rcases hc with rfl | rfl | rfl | rfl | rfl | rfl <;> simp only [Call.Fits] <;> try decide
+  intro raw
+  show (defaultWriteSt 0 4 (bytesSerialize 4) [5, 5] raw).1.length = raw.length
+  simp [defaultWriteSt, bytesSerialize]
 
 /-- **gen_fn_tie** (tie by regeneration, function bodies): the Lean functions that `rs2lean`
 re-translates from the CURRENT Rust source on every run (FnAccessRight) are equal, for every input and both
